@@ -101,7 +101,8 @@ Record summary := {
 
 (* ------------------------------------------------------------------ scene (input) *)
 Record ptexture := { tx_ptr : N; tx_uri : string; tx_samp : option gsamp;
-                     tx_exts : list (string * bool) }.          (* texture-info extensions: id, required *)
+                     tx_exts : list (string * bool);            (* texture-info extensions: id, required *)
+                     tx_xcls : list N }.                        (* class of each extension value under Go's == (harness) *)
 Definition color16 := list N.                                   (* what color.Color.RGBA() returns *)
 Record ppbr := { pb_color : option color16; pb_tex : option ptexture; pb_metal : option N;
                  pb_rough : option N; pb_mrtex : option ptexture }.
@@ -206,8 +207,19 @@ Definition rgb_millis (c : color16) : list N := map millis (firstn 3 c).
 Definition samp_fields_eqb (a b : gsamp) : bool :=
   (gs_mag a =? gs_mag b) && (gs_min a =? gs_min b) && (gs_ws a =? gs_ws b) && (gs_wt a =? gs_wt b).
 Definition samp_eqb (a b : gsamp) : bool := samp_fields_eqb a b && String.eqb (gs_name a) (gs_name b).   (* Sampler.equal *)
-(* PolyformTexture.equal: URI and the four sampler fields; extensions and sampler name are not compared *)
+(* PolyformTexture.equal after fix 31c30a5: URI, the extension values (element-wise ==: their ids, required
+   flags and equality classes), the four sampler settings and the sampler name.
+   [ptex_equal_pinned] is the equality of the pinned tree (URI and sampler settings only): kept as
+   documentation of the defect, not used by the writer model. *)
+Definition ext_eqb (a b : string * bool) : bool := String.eqb (fst a) (fst b) && Bool.eqb (snd a) (snd b).
 Definition ptex_equal (a b : option ptexture) : bool :=
+  match a, b with
+  | None, None => true
+  | Some x, Some y => String.eqb (tx_uri x) (tx_uri y) && list_eqb ext_eqb (tx_exts x) (tx_exts y)
+                      && listN_eqb (tx_xcls x) (tx_xcls y) && opt_eqb samp_eqb (tx_samp x) (tx_samp y)
+  | _, _ => false
+  end.
+Definition ptex_equal_pinned (a b : option ptexture) : bool :=
   match a, b with
   | None, None => true
   | Some x, Some y => String.eqb (tx_uri x) (tx_uri y) && opt_eqb samp_fields_eqb (tx_samp x) (tx_samp y)
